@@ -46,16 +46,16 @@ type c07Case struct {
 
 // one recorded operation of a history
 type c07Ev struct {
-	Client   int    `json:"client"`
-	Seq      int    `json:"seq"`
-	Op       c07Op  `json:"op"`
-	Call     int64  `json:"call"`
-	Ret      int64  `json:"ret"`
-	Status   int    `json:"status"`
-	Wrote    string `json:"wrote,omitempty"`    // value id written (put/vput)
-	Observed string `json:"observed,omitempty"` // value id observed (get/head/copy source), "-" = absent
-	Note     string `json:"note,omitempty"`
-	Version  string `json:"version,omitempty"`
+	Client   int               `json:"client"`
+	Seq      int               `json:"seq"`
+	Op       c07Op             `json:"op"`
+	Call     int64             `json:"call"`
+	Ret      int64             `json:"ret"`
+	Status   int               `json:"status"`
+	Wrote    string            `json:"wrote,omitempty"`    // value id written (put/vput)
+	Observed string            `json:"observed,omitempty"` // value id observed (get/head/copy source), "-" = absent
+	Note     string            `json:"note,omitempty"`
+	Version  string            `json:"version,omitempty"`
 	Listed   map[string]string `json:"listed,omitempty"` // key -> etag
 	bodyOK   bool
 }
@@ -87,13 +87,13 @@ func c07Identify(b []byte) (id string, ok bool) {
 }
 
 type c07Runner struct {
-	st    *backends.Stack
-	t0    time.Time
-	mu    sync.Mutex
-	evs   []c07Ev
-	etags map[string]string // etag -> value id
-	vers    sync.Map // version id -> value id
-	deleted sync.Map // version ids removed by delver-all
+	st      *backends.Stack
+	t0      time.Time
+	mu      sync.Mutex
+	evs     []c07Ev
+	etags   map[string]string // etag -> value id
+	vers    sync.Map          // version id -> value id
+	deleted sync.Map          // version ids removed by delver-all
 	upID    string
 }
 
